@@ -43,7 +43,8 @@ theorem allS_putStates_sub (k : Kind) (l : List SState) : ∀ x ∈ (({} : TxRes
 /-- a committed state transaction: the items, the tables and the result -/
 theorem runS_committed {t t' : Tables} {r : TxResult} (hw : WF t) {s : SScript} (h : runS t s = (t', r, .committed)) :
     ∃ items : List (Handle × SItem), SItemsOK { t with ver := t.ver + 1 } items ∧
-      t' = (applySItems { t with ver := t.ver + 1 } items).1 ∧ r = ({} : TxResult).putStates s.kind (items.map (·.2.new)) := by
+      t' = (applySItems { t with ver := t.ver + 1 } items).1 ∧ r = ({} : TxResult).putStates s.kind (items.map (·.2.new)) ∧
+      items ≠ [] := by
   unfold runS at h
   split at h
   · cases h
@@ -65,7 +66,7 @@ theorem runS_committed {t t' : Tables} {r : TxResult} (hw : WF t) {s : SScript} 
         | some e => simp at h
         | none =>
           simp only [Prod.mk.injEq] at h
-          refine ⟨tx.items, hi, by rw [hres]; exact h.1.symm, ?_⟩
+          refine ⟨tx.items, hi, by rw [hres]; exact h.1.symm, ?_, fun e => he (by simp [e])⟩
           rw [← h.2.1, hups, hkind]
 
 theorem items_new_dh_nodup {t : Tables} {items : List (Handle × SItem)} (hi : SItemsOK t items) :
@@ -76,7 +77,7 @@ theorem items_new_dh_nodup {t : Tables} {items : List (Handle × SItem)} (hi : S
 
 theorem result_truthful_S {t t' : Tables} {r : TxResult} (hw : WF t) {s : SScript} (h : runS t s = (t', r, .committed)) :
     (∀ x ∈ r.allS, findS t' x.dh = some x) ∧ (r.allS.map (·.dh)).Nodup := by
-  obtain ⟨items, hi, rfl, rfl⟩ := runS_committed hw h
+  obtain ⟨items, hi, rfl, rfl, _⟩ := runS_committed hw h
   constructor
   · intro x hx
     have hx' := allS_putStates_sub _ _ x hx
@@ -88,7 +89,7 @@ theorem result_truthful_S {t t' : Tables} {r : TxResult} (hw : WF t) {s : SScrip
 
 theorem result_complete_S {t t' : Tables} {r : TxResult} (hw : WF t) {s : SScript} (hk : s.kind ≠ .context)
     (h : runS t s = (t', r, .committed)) (k : Handle) (hne : findS t' k ≠ findS t k) : ∃ x ∈ r.allS, x.dh = k := by
-  obtain ⟨items, hi, rfl, rfl⟩ := runS_committed hw h
+  obtain ⟨items, hi, rfl, rfl, _⟩ := runS_committed hw h
   rw [allS_putStates _ _ hk]
   rw [applySItems_findS hi] at hne
   cases hg : dictGet items k with
@@ -112,7 +113,7 @@ theorem applyCItems_ups {t : Tables} {items : List (Handle × CItem)} (hi : CIte
 theorem runC_committed {t t' : Tables} {r : TxResult} (hw : WF t) {s : CScript} (hf : FreshUuids t s)
     (h : runC t s = (t', r, .committed)) :
     ∃ items : List (Handle × CItem), CItemsOK true { t with ver := t.ver + 1 } items ∧
-      t' = (applyCItems { t with ver := t.ver + 1 } items).1 ∧ r = { ctx := items.filterMap (·.2.new) } := by
+      t' = (applyCItems { t with ver := t.ver + 1 } items).1 ∧ r = { ctx := items.filterMap (·.2.new) } ∧ items ≠ [] := by
   unfold runC at h
   split at h
   · cases h
@@ -132,13 +133,13 @@ theorem runC_committed {t t' : Tables} {r : TxResult} (hw : WF t) {s : CScript} 
         | some e => simp at h
         | none =>
           simp only [Prod.mk.injEq] at h
-          refine ⟨tx.items, hi, by rw [hres]; exact h.1.symm, ?_⟩
+          refine ⟨tx.items, hi, by rw [hres]; exact h.1.symm, ?_, fun e => he (by simp [e])⟩
           rw [← h.2.1, hups]
 
 theorem result_truthful_C {t t' : Tables} {r : TxResult} (hw : WF t) {s : CScript} (hf : FreshUuids t s)
     (h : runC t s = (t', r, .committed)) :
     (∀ x ∈ r.ctx, findC t' x.h = some x) ∧ (r.ctx.map (·.h)).Nodup ∧ r.allS = [] := by
-  obtain ⟨items, hi, rfl, rfl⟩ := runC_committed hw hf h
+  obtain ⟨items, hi, rfl, rfl, _⟩ := runC_committed hw hf h
   refine ⟨?_, ?_, rfl⟩
   · intro x hx
     simp only [List.mem_filterMap] at hx
@@ -166,7 +167,7 @@ theorem result_truthful_C {t t' : Tables} {r : TxResult} (hw : WF t) {s : CScrip
 theorem result_complete_C {t t' : Tables} {r : TxResult} (hw : WF t) {s : CScript} (hf : FreshUuids t s)
     (h : runC t s = (t', r, .committed)) (k : Handle) (hne : findC t' k ≠ findC t k) :
     (∃ x ∈ r.ctx, x.h = k) ∨ findC t' k = none := by
-  obtain ⟨items, hi, rfl, rfl⟩ := runC_committed hw hf h
+  obtain ⟨items, hi, rfl, rfl, _⟩ := runC_committed hw hf h
   rw [applyCItems_findC hi] at hne ⊢
   cases hg : dictGet items k with
   | none => rw [hg] at hne; exact absurd rfl hne
